@@ -35,7 +35,7 @@ try:
         print(p, out.returncode, lines[:3], flush=True)
 finally:
     subprocess.run(["git", "-C", "/repo", "checkout", "--", "."], check=True)
-    subprocess.run(["git", "-C", "/repo", "clean", "-fdq", "tests/"], check=False)
+    subprocess.run(["git", "-C", "/repo", "clean", "-fdq", "tests/", "src/"], check=False)   # files the patch created
     subprocess.run(["cargo", "build", "--offline"], cwd=os.path.join(ROOT, "harness"), capture_output=True)
     subprocess.run([sys.executable, os.path.join(ROOT, "tools", "extract_consts.py")], capture_output=True)
     # keep the replays of this run next to the result, then restore the clean tree's evidence and replays
